@@ -99,7 +99,7 @@ def check(scratch, exe, a, t0):
     sel, total, exhaustive = SK.select(depth, limit, V.seed())
     work = os.path.join(scratch.dir, "skel")
     os.makedirs(work, exist_ok=True)
-    timeout_ms = 20000 if a.tier == "quick" else 60000
+    timeout_ms = 60000 if a.tier == "quick" else 120000
     programs = []     # (path, {fname: (spine, leaf, variant)})
     for ci in range(0, len(sel), CHUNK):
         chunk = sel[ci:ci + CHUNK]
